@@ -15,7 +15,7 @@
     inside Send ++ what the item in the sender's hand, the queue and the
     pending feed callbacks addressed to [sb] would be sent as NOW.  Only
     statements here, each closed by [exact] of a lemma of StreamProofs.v. *)
-From Gnmi Require Import Base.Prelude Stream.StreamLts Stream.StreamProofs.
+From Gnmi Require Import Base.Prelude Stream.StreamLts Stream.StreamProofs Stream.C04Check Stream.C04CheckProofs.
 Open Scope Z_scope.
 
 (** The invariant: in EVERY reachable state, for every live subscriber whose
@@ -134,3 +134,13 @@ Theorem C04_walk_relation_contained :
   forall q p, covers q p = true -> compat q p = true.
 Proof. exact covers_compat. Qed.
 Print Assumptions C04_walk_relation_contained.
+
+(** Soundness of the executable specification's convergence clause: what
+    K_P accepts on the implementation's observations IS convergence. *)
+Theorem C04_spec_sound :
+  forall c qs rs p, C04Check.conv_path c qs false rs p = 0%N ->
+  existsb (fun q => covers q p) qs = true ->
+  C04Check.pcont (C04Check.c_ed c) (replay_path p None rs)
+  = C04Check.pcont (C04Check.c_ed c) (C04Check.dlookup p (C04Check.c_dump c)).
+Proof. exact C04CheckProofs.conv_path_sound. Qed.
+Print Assumptions C04_spec_sound.
